@@ -10,6 +10,7 @@ except ImportError:      # replays run under the repository's interpreter, witho
     z3 = None
 
 Z3_TIMEOUT_MS = int(os.environ.get('PYVC_Z3_TIMEOUT_MS', '10000'))
+Z3_FIRST_TIMEOUT_MS = int(os.environ.get('PYVC_Z3_FIRST_TIMEOUT_MS', '2000'))   # string obligations: z3 briefly, then cvc5, then z3 in full
 CVC5_TIMEOUT_S = int(os.environ.get('PYVC_CVC5_TIMEOUT_S', '10'))
 OLDZ3_TIMEOUT_S = int(os.environ.get('PYVC_OLDZ3_TIMEOUT_S', '20'))
 
@@ -49,12 +50,23 @@ def discharge(pc, goal, want_smt2=False, all_backends=False):
     if z3.is_true(goal):
         return Verdict('unsat', 'trivial', 0.0)
     s = z3.Solver()
-    s.set('timeout', Z3_TIMEOUT_MS)
+    staged = Z3_FIRST_TIMEOUT_MS < Z3_TIMEOUT_MS and _uses_strings(list(pc) + [goal])
+    s.set('timeout', Z3_FIRST_TIMEOUT_MS if staged else Z3_TIMEOUT_MS)
     for t in pc:
         s.add(t)
     s.add(z3.Not(goal))
     smt2 = None
     r = s.check()
+    if r == z3.unknown and staged:
+        # what z3 decides on strings it usually decides at once; cvc5 is the stronger string solver
+        smt2 = s.to_smt2()
+        v2 = _external(smt2, pc + [goal], only_cvc5=True)
+        if v2 is not None and v2.status != 'unknown':
+            v2.smt2 = smt2
+            v2.time = time.time() - t0
+            return v2
+        s.set('timeout', Z3_TIMEOUT_MS)
+        r = s.check()
     dt = time.time() - t0
     if want_smt2 or r == z3.unknown or all_backends:
         smt2 = s.to_smt2()
@@ -69,14 +81,14 @@ def discharge(pc, goal, want_smt2=False, all_backends=False):
         m = s.model()
         return Verdict('sat', 'z3-%s' % z3.get_version_string(), dt, model=m, smt2=smt2)
     reason = s.reason_unknown()
-    v2 = _external(smt2, pc + [goal])
+    v2 = _external(smt2, pc + [goal], skip_cvc5=staged)
     if v2 is not None and v2.status != 'unknown':
         v2.smt2 = smt2
         return v2
     return Verdict('unknown', 'z3+cvc5+z3-4.8', time.time() - t0, smt2=smt2, reason=reason)
 
 
-def _external(smt2, terms):
+def _external(smt2, terms, only_cvc5=False, skip_cvc5=False):
     strings = _uses_strings(terms)
     with tempfile.NamedTemporaryFile('w', suffix='.smt2', delete=False) as f:
         text = smt2
@@ -89,6 +101,10 @@ def _external(smt2, terms):
         for backend, cmd in (
                 ('cvc5-1.0.3', ['/usr/bin/cvc5', '--strings-exp', '--tlimit=%d' % (CVC5_TIMEOUT_S * 1000), fn]),
                 ('z3-4.8.12', ['/usr/bin/z3', '-T:%d' % OLDZ3_TIMEOUT_S, fn])):
+            if only_cvc5 and not backend.startswith('cvc5'):
+                continue
+            if skip_cvc5 and backend.startswith('cvc5'):
+                continue
             try:
                 p = subprocess.run(cmd, capture_output=True, text=True, timeout=max(CVC5_TIMEOUT_S, OLDZ3_TIMEOUT_S) + 5)
             except subprocess.TimeoutExpired:
